@@ -446,6 +446,25 @@ def r8(ctx):
         got = {dict(((t_, v) for t_, v in lf.cond if t_ == ("discr", epv))).get(("discr", epv)): lf.ret for lf in lv}
         ctx.ob("enpassant_pos", got == {"None": T.OPT_NONE, "Some": want_some}, f"enpassant_pos is {[(k_, T.show(v)[:120]) for k_, v in got.items()]}; expected ep().map(|f| Pos::new(f, turn.enpassant_capture_rank()))",
                site=P.body(k).get("def_span"))
+    # the en-passant marker is stored as OptionalFile and read back as Option<File>: both conversions keep the file (evaluated on all 9 values)
+    OF, FL = MG + "OptionalFile", "chess_bitboard::pos::File"
+    some = lambda x: ("adt", "core::option::Option", "Some", (x,))
+    for k in sorted(k_ for k_ in P.fns if "OptionalFile" in k_ and "core::convert::From<" in k_ and k_.endswith("::from")):
+        ctx.used_body(k)
+        lv = eng.tabulate(k, keep_panics=True)
+        prm = ("param", 0, P.body(k)["locals"][1].get("n", "a0"))
+        to_opt = P.body(k)["locals"][0]["ty"].startswith("core::option::Option")
+        bad = []
+        for n, _ in [(None, None)] + list(P.enum_variants(FL)):
+            arg = (("adt", OF, n or "None", ())) if to_opt else (T.OPT_NONE if n is None else some(("adt", FL, n, ())))
+            want = (T.OPT_NONE if n is None else some(("adt", FL, n, ()))) if to_opt else ("adt", OF, n or "None", ())
+            try:
+                r = T.eval_table(eng, lv, {prm: arg})
+            except Exception as e:
+                r = ("unevaluable", type(e).__name__)
+            if r != want:
+                bad.append((str(n), f"{T.short(k)[:70]}({T.show(arg)}) = {T.show(r) if isinstance(r, tuple) else r}, expected {T.show(want)}"))
+        ctx.bulk(f"{'OptionalFile -> Option<File>' if to_opt else 'Option<File> -> OptionalFile'} on every value", 9, bad, "the en-passant file changes in a conversion")
     # get(pos) = color_of(pos).map(|c| (c, piece_of_unchecked(pos)));  piece_of likewise
     for k, second in ((RB + "::get", True), (RB + "::piece_of", False)):
         if k not in P.fns:
